@@ -64,7 +64,7 @@ func lowerLabels(s string) ([]string, error) {
 	}
 	out := make([]string, len(n))
 	for i, l := range n {
-		out[i] = strings.ToLower(string(l))
+		out[i] = string(wm.LowerBytes(append([]byte{}, l...))) // ASCII letters only; other octets compare as they are
 	}
 	return out, nil
 }
@@ -284,6 +284,18 @@ func (c muxCase) opsText() string {
 	return sb.String()
 }
 
+func textBucket(n int) string {
+	switch {
+	case n >= 1004:
+		return "1004+"
+	case n >= 1000:
+		return "1000-1003"
+	case n >= 500:
+		return "500-999"
+	}
+	return "240-499"
+}
+
 func checkMux(c muxCase) error {
 	if len(c.Patterns) > 8 || len(c.Ops) > 48 || c.NQ < 0 || c.NQ > 2 || c.Opcode < 0 || c.Opcode > 15 {
 		pbt.Note(nil, false, "invalid-case")
@@ -311,6 +323,10 @@ func checkMux(c muxCase) error {
 	if strings.Contains(c.QName, `\.`) {
 		cls = append(cls, "escaped-dot-in-qname")
 	}
+	if len(c.QName) >= 240 {
+		ql, _, _ := wm.UnescName(c.QName)
+		cls = append(cls, fmt.Sprintf("qname-wire=%d", ql.WireLen()), "qname-text="+textBucket(len(c.QName)))
+	}
 	rc := removalClasses(c)
 	cls = append(cls, rc...)
 	removalMatters := false
@@ -322,7 +338,7 @@ func checkMux(c muxCase) error {
 	if k := knownClass(c, matches, rootRegistered(c)); k != "" {
 		cls = append(cls, "known-class="+k)
 	}
-	pbt.Note(kb, len(matches) >= 2 || removalMatters, cls...)
+	pbt.Note(kb, len(matches) >= 2 || removalMatters || len(c.QName) >= 240, cls...)
 
 	mux := dns.NewServeMux()
 	var called []int
@@ -382,6 +398,93 @@ func flipCase(t *rapid.T, s string) string {
 		}
 	}
 	return string(b)
+}
+
+// ---------------------------------------------------------------------------------------------
+// names at the size limits: wire length 240..255 in maximal labels, every octet from one escaping
+// class (plain, needs \c, needs \DDD), so that the presentation form runs up to its maximum of
+// 1004 characters
+
+var fillOctets = []byte{'a', 'Z', '7', '.', '\\', ' ', '"', 0x00, 0x1f, 0x7f, 0x80, 0xff}
+
+// limitName builds a name of exactly wire octets on the wire (1 <= wire <= 255): labels as long as
+// possible, rotated by rot, every octet = fill (fill2 on every alt-th octet when alt > 0).
+func limitName(wire int, fill, fill2 byte, alt, rot int) wm.Name {
+	var lens []int
+	left := wire - 1
+	for left > 0 {
+		l := 63
+		if l > left-1 {
+			l = left - 1
+		}
+		if l == 0 { // one octet left cannot hold a label: shorten the previous one
+			lens[len(lens)-1]--
+			l = 1
+		}
+		lens = append(lens, l)
+		left -= l + 1
+	}
+	var n wm.Name
+	k := 0
+	for i := range lens {
+		l := make([]byte, lens[(i+rot)%len(lens)])
+		for j := range l {
+			l[j] = fill
+			if k++; alt > 0 && k%alt == 0 {
+				l[j] = fill2
+			}
+		}
+		n = append(n, l)
+	}
+	return n
+}
+
+// limitCase: question = the limit name; registered = none / root / suffixes of the name.
+func limitCase(n wm.Name, pats int, qtype uint16) muxCase {
+	c := muxCase{QName: wm.EscName(n), QType: qtype, NQ: 1, ID: 77, RD: true}
+	suffix := func(k int) string {
+		if k > len(n) {
+			k = len(n)
+		}
+		return wm.EscName(n[len(n)-k:])
+	}
+	switch pats {
+	case 1:
+		c.Patterns = []string{"."}
+	case 2:
+		c.Patterns = []string{suffix(1)}
+	case 3:
+		c.Patterns = []string{".", suffix(2), suffix(1)}
+	case 4:
+		c.Patterns = []string{suffix(len(n))}
+	case 5:
+		c.Patterns = []string{suffix(len(n) - 1), "x."}
+	}
+	return c
+}
+
+func eachLimitName(emit func(muxCase)) {
+	lo := 250
+	if pbt.Thorough() {
+		lo = 1
+	}
+	for wire := lo; wire <= 255; wire++ {
+		if wire == 2 || (wire > 8 && wire < 240 && wire%16 != 0) {
+			continue // no name is 2 octets long on the wire
+		}
+		for _, f := range fillOctets {
+			for rot := 0; rot < 4; rot++ {
+				for pats := 0; pats <= 5; pats++ {
+					for _, qt := range []uint16{dns.TypeA, dns.TypeDS} {
+						if wire == 1 && (rot > 0 || pats > 1) {
+							continue
+						}
+						emit(limitCase(limitName(wire, f, 0, 0, rot), pats, qt))
+					}
+				}
+			}
+		}
+	}
 }
 
 var muxTypes = []uint16{dns.TypeA, dns.TypeDS, dns.TypeDS, dns.TypeNS, dns.TypeSOA, dns.TypeDNSKEY, dns.TypeANY, dns.TypeCDS}
@@ -467,6 +570,18 @@ func genMux(t *rapid.T) muxCase {
 	}
 	c.QName = flipCase(t, c.QName)
 	c.QType = rapid.SampledFrom(muxTypes).Draw(t, "qtype")
+	if rapid.IntRange(0, 19).Draw(t, "limitname") == 3 {
+		// a question name at (or near) the 255-octet limit, filled from one escaping class
+		wire := 255 - rapid.SampledFrom([]int{0, 0, 0, 1, 2, 3, 5, 15}).Draw(t, "short")
+		f := rapid.SampledFrom(fillOctets).Draw(t, "fill")
+		f2 := rapid.SampledFrom(fillOctets).Draw(t, "fill2")
+		alt := rapid.SampledFrom([]int{0, 0, 0, 2, 7, 250}).Draw(t, "alt")
+		lc := limitCase(limitName(wire, f, f2, alt, rapid.IntRange(0, 3).Draw(t, "rot")), rapid.IntRange(0, 5).Draw(t, "pats"), c.QType)
+		c.QName, c.Patterns, c.Ops = lc.QName, lc.Patterns, nil
+		if len(c.Patterns) > 0 && rapid.Bool().Draw(t, "rmroot") {
+			c.Ops = []regOp{{Remove: true, Pattern: c.Patterns[0]}}
+		}
+	}
 	c.NQ = rapid.SampledFrom([]int{1, 1, 1, 1, 1, 1, 1, 1, 1, 1, 2, 2, 0}).Draw(t, "nq")
 	c.ID = uint16(rapid.IntRange(0, 65535).Draw(t, "id"))
 	if rapid.IntRange(0, 3).Draw(t, "otherop") == 0 {
@@ -612,6 +727,7 @@ func checkMuxRace(c muxRaceCase) error {
 
 func init() {
 	pbt.Register(pbt.Sub[muxCase]{Name: "mux-routing", Weight: 200, Gen: genMux, Check: checkMux})
+	pbt.RegisterEnum(pbt.Enum[muxCase]{Name: "mux-limit-names", Exhaustive: true, Each: eachLimitName, Check: checkMux})
 	pbt.Register(pbt.Sub[muxRaceCase]{Name: "mux-concurrent", Weight: 2, Gen: genMuxRace, Check: checkMuxRace})
 
 	pbt.Probe(knownDSTop, func() error {
